@@ -59,6 +59,7 @@ impl HookState {
                 pre_advance_us: 0,
                 long_stall_permille: 0,
                 long_stall_max_us: 0,
+                call_deadline_s: 0,
             },
             enabled: false,
             visits: BTreeMap::new(),
